@@ -147,12 +147,15 @@ Fixpoint dict_of (pairs : list (list str)) (acc : list (str * str)) : option (li
   | _ :: _ => None
   end.
 
+Definition blank (s : str) : bool := forallb is_ws s.        (* not s.strip() *)
+
 Definition parse_dict (s : str) : res :=
+  if blank s then Ok (VDict []) else      (* the text form of the empty mapping *)
   match dict_of (map (fun p => map strip (split_on "="%char (strip p))) (split_on ","%char s)) [] with
   | Some d => Ok (VDict d) | None => Err ValueError
   end.
 
-Definition items (s : str) : list str := map strip (split_on ","%char s).
+Definition items (s : str) : list str := if blank s then [] else map strip (split_on ","%char s).      (* blank: the empty list / tuple *)
 
 Definition branch (k : kind) (t : ty) (s : str) : res :=
   match k with
